@@ -96,6 +96,15 @@ fire("C10", "R2", "readonly-with-writer", "store/store.go", "\t\tstateReader = N
 benign("C10", "readonly-branch-order", "store/store.go",
        "\tif s.version == queryVersion {\n\t\tlssReader := NewVersionedStore(s.db.NewSnapshot(), nil, lssVersion)\n\t\tstateReader = NewTxn(lssReader, nil, latestStatePrefix, false, false, true)\n\t} else {\n\t\tstateReader = NewTxn(hssReader, nil, historicStatePrefix, false, false, true)\n\t}\n",
        "\tif queryVersion != s.version {\n\t\tstateReader = NewTxn(hssReader, nil, historicStatePrefix, false, false, true)\n\t} else {\n\t\tlssReader := NewVersionedStore(s.db.NewSnapshot(), nil, lssVersion)\n\t\tstateReader = NewTxn(lssReader, nil, latestStatePrefix, false, false, true)\n\t}\n")
+fire("C10", "R5", "first-skips-an-entry", "store/versioned_store.go", "\t\tif !vi.iter.SeekGE(vi.prefix) {\n", "\t\tif !vi.iter.SeekGE(vi.prefix) || !vi.iter.Next() {\n")
+fire("C10", "R5", "seek-then-step", "store/versioned_store.go", "\t\tif version > vi.store.version {\n\t\t\t// skip over the 'previous userKey' to go to the next 'userKey'\n\t\t\tcontinue\n",
+     "\t\tif version > vi.store.version {\n\t\t\tif vi.seek && !vi.reverse {\n\t\t\t\tvi.iter.SeekGE(vi.store.makeVersionedKey(rawKey[:len(rawKey)-VersionSize], vi.store.version))\n\t\t\t}\n\t\t\tcontinue\n")
+benign("C10", "raw-key-helper", "store/versioned_store.go",
+       [("\t\trawKey := vi.iter.Key()\n\t\tversion := parseVersion(rawKey)\n\t\tif version > vi.store.version {", "\t\trawKey := vi.rawKey()\n\t\tversion := parseVersion(rawKey)\n\t\tif version > vi.store.version {"),
+        ("// step() increments the iterator to the logical 'next'\n", "// rawKey() returns the versioned key under the cursor\nfunc (vi *VersionedIterator) rawKey() []byte { return vi.iter.Key() }\n\n// step() increments the iterator to the logical 'next'\n")], None)
+fire("C10", "R6", "view-borrows-live-indexer", "store/store.go", "\t\tIndexer:    &Indexer{NewTxn(hssReader, nil, indexerPrefix, false, false, false), s.config},\n\t\tmetrics:    s.metrics,\n\t\tmu:         &sync.Mutex{},", "\t\tIndexer:    s.Indexer,\n\t\tmetrics:    s.metrics,\n\t\tmu:         &sync.Mutex{},")
+benign("C10", "view-tree-in-local", "store/store.go", [("\t// return the store object\n\treturn &Store{\n\t\tversion:    queryVersion,", "\ttree := NewDefaultSMT(NewTxn(hssReader, nil, stateCommitIDPrefix, false, false, true))\n\t// return the store object\n\treturn &Store{\n\t\tversion:    queryVersion,"),
+       ("\t\tsc:         NewDefaultSMT(NewTxn(hssReader, nil, stateCommitIDPrefix, false, false, true)),\n\t\tIndexer:    &Indexer{NewTxn(hssReader, nil, indexerPrefix, false, false, false), s.config},\n\t\tmetrics:    s.metrics,\n\t\tmu:         &sync.Mutex{},", "\t\tsc:         tree,\n\t\tIndexer:    &Indexer{NewTxn(hssReader, nil, indexerPrefix, false, false, false), s.config},\n\t\tmetrics:    s.metrics,\n\t\tmu:         &sync.Mutex{},")], None)
 # ---------------------------------------------------------------- C11
 fire("C11", "R3", "accept-failed-txs", "controller/block.go", "\t\treturn nil, lib.ErrFailedTransactions()\n", "\t\tc.log.Warn(lib.ErrFailedTransactions().Error())\n")
 fire("C11", "R2", "header-uses-block-numtxs", "fsm/state.go", "\t\tNumTxs:                uint64(r.Count),", "\t\tNumTxs:                b.BlockHeader.NumTxs,")
@@ -103,6 +112,10 @@ fire("C11", "R3", "results-not-compared", "controller/block.go", "\tif !qc.Resul
 benign("C11", "hash-compare-named", "controller/block.go",
        "\tif !bytes.Equal(compareHash, candidate.Hash) {\n",
        "\tif same := bytes.Equal(compareHash, candidate.Hash); !same {\n")
+fire("C11", "R8", "proposer-counts-results-too", "lib/tx.go", "\ta.BlockSize += txSize\n", "\ta.BlockSize += txSize + uint64(len(txResult))\n")
+fire("C11", "R8", "replica-measures-encoded-block", "lib/certificate.go", "\tif txsSize > maxBlockSize {\n", "\tif txsSize+len(x.Block)/64 > maxBlockSize {\n")
+benign("C11", "replica-size-loop-by-index", "lib/certificate.go", "\tfor _, tx := range block.Transactions {\n\t\ttxsSize += len(tx)\n\t}\n\tif txsSize > maxBlockSize {\n",
+       "\tfor i := 0; i < len(block.Transactions); i++ {\n\t\ttxsSize = txsSize + len(block.Transactions[i])\n\t}\n\tif maxBlockSize < txsSize {\n")
 # ---------------------------------------------------------------- C12
 fire("C12", "R2", "marker-at-other-height", "fsm/validator.go", "\tvalidator.UnstakingHeight = finishUnstakingHeight\n", "\tvalidator.UnstakingHeight = finishUnstakingHeight + 1\n")
 fire("C12", "R3", "stake-without-supply", "fsm/message.go", "\tif err = s.AddToStakedSupply(msg.Amount); err != nil {\n\t\treturn err\n\t}\n", "")
